@@ -745,7 +745,16 @@ func TestVerifC15Manager(t *testing.T) {
 			}
 		}
 		reloadOK := true
+		validOK := true
 		diff := ""
+		if mgrOK {
+			// an accepted configuration passes validation
+			err, p = vc15MSafe(m.Validate)
+			if p != "" {
+				violation("manager-panic", "Manager.Validate: "+p)
+			}
+			validOK = err == nil && p == ""
+		}
 		type savedObs struct{ present, null, eqOwn, eqIn bool }
 		saved := map[int]savedObs{}
 		if mgrOK {
@@ -920,8 +929,8 @@ func TestVerifC15Manager(t *testing.T) {
 			dispT = fmt.Sprintf("(Some [%s])", strings.Join(ds, "; "))
 		}
 		modeN := map[string]int{"load": 0, "default": 1, "file": 2, "raw": 0}[mode]
-		term := fmt.Sprintf("(%d, %s, [%s], %s, [%s], %s, %s, %s)", modeN, cqBool(wellFormed), strings.Join(entries, "; "),
-			cqBool(mgrOK), strings.Join(savedT, "; "), cqBool(reloadOK), dispT, cqListN(leaks))
+		term := fmt.Sprintf("(%d, %s, [%s], %s, %s, [%s], %s, %s, %s)", modeN, cqBool(wellFormed), strings.Join(entries, "; "),
+			cqBool(mgrOK), cqBool(validOK), strings.Join(savedT, "; "), cqBool(reloadOK), dispT, cqListN(leaks))
 		out.count("manager:mode=" + mode)
 		if mgrOK {
 			out.count("manager:accepted")
@@ -944,7 +953,7 @@ func TestVerifC15Manager(t *testing.T) {
 		for _, s := range vc15MSecs {
 			secMap[s.name] = fmt.Sprintf("registered=%v status=%d ok=%v", !unreg[s.name], res[s.name].status, res[s.name].ok)
 		}
-		obs := map[string]interface{}{"manager_ok": mgrOK, "reload_ok": reloadOK, "diff": diff, "leaked_secrets": leakNames,
+		obs := map[string]interface{}{"manager_ok": mgrOK, "valid_ok": validOK, "reload_ok": reloadOK, "diff": diff, "leaked_secrets": leakNames,
 			"sections": secMap, "file": string(raw), "well_formed": wellFormed}
 		if len(leakNames) > 0 || os.Getenv("VERIF_CASES_IN") != "" {
 			obs["display"] = string(db)
